@@ -515,6 +515,13 @@ func jnRandomScenario(seed int64, id int, thorough bool) jnScenario {
 		nh = 1 + rng.Intn(14)
 	}
 	prios := []int{-100, -1, 0, 0, 0, 1, 5, 5, 1 << 30}
+	if rng.Intn(4) == 0 {
+		// large groups with many priority ties (sorting algorithms switch strategy with the size of the input:
+		// registration order among equals must hold for any number of handlers)
+		nh = 13 + rng.Intn(36)
+		ids = ids[:1+rng.Intn(2)]
+		prios = []int{0, 0, 0, 1, 5}
+	}
 	dispatchy := rng.Intn(2) == 0
 	if !dispatchy {
 		sc.Regs = jnRecorderReg
